@@ -74,12 +74,12 @@ def classify_site(facts, b, c):
         if ok and not tainted and re.search(r"AsyncTempFile::new", b.id):
             return ("scratch-create", None)
         return (None, "File::create on a path that is not (only) std::env::temp_dir()+uuid inside AsyncTempFile::new")
-    if re.search(r"WriteExt::(write_all|flush)$|File::sync_(all|data)$", nm):
+    if re.search(r"WriteExt::(write_all|flush|close)$|File::sync_(all|data)$", nm):
         a = c.args[0]
         if derives_from_call(prov, a, r"AsyncTempFile::file$"):
             recv = [x for x in origin_calls(prov, a) if x.matches(r"AsyncTempFile::file$")]
             if len(recv) == len(origin_calls(prov, a)) and all(derives_from_call(prov, r.args[0], r"AsyncTempFile::new$") for r in recv):
-                kind = "scratch-write" if nm.endswith("write_all") else ("scratch-flush" if nm.endswith("flush") else "scratch-sync")
+                kind = "scratch-write" if nm.endswith("write_all") else ("scratch-flush" if nm.endswith("flush") else ("scratch-close" if nm.endswith("close") else "scratch-sync"))
                 return (kind, None)
         return (None, "%s on something that is not the scratch file" % nm.split("::")[-1])
     if re.search(r"async_std::fs::rename$", nm):
